@@ -9,6 +9,7 @@ use std::panic::{catch_unwind, AssertUnwindSafe};
 #[derive(Clone, Copy, PartialEq, Debug)]
 pub enum Mode {
 	C01,
+	C05,
 	C02,
 	C03,
 	C07,
@@ -236,8 +237,10 @@ pub fn run_type<T: Reg>(cx: &mut Cx, name: &str) {
 				// value cases are regenerated from (seed, index)
 				let seed: u64 = only[2].parse().unwrap();
 				let mut r = Rng::new(seed);
+				r.bigbias = only.get(3).map_or(false, |x| x == "big");
 				let v = T::gen(&mut r, 0);
-				value_case::<T>(cx, name, &desc, &v, seed);
+				let big = r.bigbias;
+				value_case::<T>(cx, name, &desc, &v, seed, big);
 			},
 			"alloc" | "peak" => {
 				alloc_case::<T>(cx, name, &desc, &unhex(&only[3]), only[2] == "1");
@@ -248,13 +251,53 @@ pub fn run_type<T: Reg>(cx: &mut Cx, name: &str) {
 	}
 	let t = cx.thorough;
 	match cx.mode {
-		Mode::C01 | Mode::C02 | Mode::C07 => {
-			let n = if t { 150 } else { 14 };
+		Mode::C05 => {
+			let n = if t { 60 } else { 12 };
 			for _ in 0..n {
 				let seed = cx.rng.next();
 				let mut r = Rng::new(seed);
 				let v = T::gen(&mut r, 0);
-				value_case::<T>(cx, name, &desc, &v, seed);
+				let rp = format!("{name}\tval\t{seed}\t-");
+				let Some(enc) = encode_guarded(&v) else {
+					cx.oracle.check(false, "encode-panic", || rp.clone());
+					continue;
+				};
+				// declared layout: the model's encoding of the descriptor the generator derived from the definition
+				cx.cases.push(format!("(GEnc {} {} {})", desc, v.val_enc(), blist(&enc)), rp.clone(), !enc.is_empty());
+				if enc.len() < 40 {
+					cx.stats.sample(format!("{name}: {} encodes to {}", v.val_enc(), hex(&enc)));
+				}
+				// decoding inverts it (skipped fields come back as their default: gen() builds them so)
+				let k = cx.rng.below(3) as usize;
+				let mut inp = enc.clone();
+				inp.extend(cx.rng.bytes(k));
+				let known = cx.rng.chance(1, 2);
+				let r2 = push_dec::<T>(cx, name, &desc, &inp, known, "valid+suffix");
+				cx.oracle.check(matches!(&r2, DRes::Ok(w, c) if w.same(&v) && *c == enc.len()), "derived-roundtrip", || rp.clone());
+				for _ in 0..3 {
+					let (m, fam) = mutate(&mut cx.rng, &enc, &[]);
+					let r3 = push_dec::<T>(cx, name, &desc, &m, true, fam);
+					cx.oracle.check(!matches!(r3, DRes::Panic), "decode-panic", || format!("{name}\tdec\t1\t{}", hex(&m)));
+				}
+			}
+			// every possible leading byte (variant index / tag) with a plausible tail
+			let tail = encode_guarded(&T::gen(&mut cx.rng, 0)).unwrap_or_default();
+			for b0 in 0..=255u8 {
+				let mut inp = vec![b0];
+				inp.extend_from_slice(&tail[1.min(tail.len())..]);
+				inp.extend_from_slice(&[0, 0, 0, 0]);
+				push_dec::<T>(cx, name, &desc, &inp, true, "every-first-byte");
+			}
+		},
+		Mode::C01 | Mode::C02 | Mode::C07 => {
+			let n = if t { 150 } else { 14 };
+			for k in 0..n {
+				let seed = cx.rng.next();
+				let mut r = Rng::new(seed);
+				// every property driven by values sees a few collections straddling the 16 KiB window
+				r.bigbias = k % 7 == 3;
+				let v = T::gen(&mut r, 0);
+				value_case::<T>(cx, name, &desc, &v, seed, k % 7 == 3);
 			}
 		},
 		Mode::C03 | Mode::C08 | Mode::C14 | Mode::C18 | Mode::C19 => {
@@ -358,8 +401,8 @@ pub fn run_type<T: Reg>(cx: &mut Cx, name: &str) {
 }
 
 /// value-driven cases: encode (C01), round trip (C02), entry points (C07)
-fn value_case<T: Reg>(cx: &mut Cx, name: &str, desc: &str, v: &T, seed: u64) {
-	let rp = format!("{name}\tval\t{seed}");
+fn value_case<T: Reg>(cx: &mut Cx, name: &str, desc: &str, v: &T, seed: u64, big: bool) {
+	let rp = format!("{name}\tval\t{seed}\t{}", if big { "big" } else { "-" });
 	let Some(enc) = encode_guarded(v) else {
 		cx.oracle.check(false, "encode-panic", || rp.clone());
 		return;
@@ -395,6 +438,14 @@ fn value_case<T: Reg>(cx: &mut Cx, name: &str, desc: &str, v: &T, seed: u64) {
 		},
 		Mode::C07 => {
 			entry_points::<T>(cx, name, v, &enc, &rp);
+			// the bulk decode paths against the value, over inputs with known and unknown length
+			// and a reader delivering short chunks (the model decides the same cases)
+			for known in [true, false] {
+				let r = push_dec::<T>(cx, name, desc, &enc, known, "bulk-roundtrip");
+				cx.oracle.check(matches!(&r, DRes::Ok(w, c) if w.same(v) && *c == enc.len()), "bulk-decode-differs", || format!("{rp}\tknown={known}"));
+			}
+			let r3: DRes<T> = dec_reader(&enc, 4099);
+			cx.oracle.check(matches!(&r3, DRes::Ok(w, c) if w.same(v) && *c == enc.len()), "bulk-decode-differs", || format!("{rp}\tioreader-4099"));
 			let term = format!("(GEnc {} {} {})", desc, v.val_enc(), blist(&enc));
 			cx.cases.push(term, rp.clone(), !enc.is_empty());
 		},
